@@ -1,7 +1,7 @@
 (* compose_svfs: the generated coefficient / nesting table is the documented BCH table, and for commuting fields
    ([v, u] = 0) every truncation order reduces to v + u: all nested brackets vanish by bilinearity. *)
 From Coq Require Import ZArith List Field Ring Lia Bool.
-From DV Require Import Base.Field Base.FieldFacts Base.LinAlg Base.Tactics Model.Sampler Model.BCH Gen.FlowAlg.
+From DV Require Import Base.Field Base.FieldFacts Base.LinAlg Base.Tactics Model.Sampler Model.BCH Gen.FlowBCH.
 Import ListNotations.
 Local Open Scope fld_scope.
 
